@@ -11,7 +11,7 @@ RULE = ('random torch module trees (depth ≤ 4; Sequential/ModuleList/ModuleDic
         'lists; real KFACPreconditioner (and the GPT-NeoX register_modules) vs the Lean walk+filter model '
         'with re.search supplied as a truth table; hooks counted on every module; non-trivial = ≥2 eligible '
         'candidates and ≥1 pattern or shared/frozen module'
-        '; siblings whose names extend each other, names containing wrapper prefixes, patterns with inline global flags / capturing groups / anchors')
+        '; siblings whose names extend each other, names containing wrapper prefixes, Linear and Conv2d leaves with an extra (frozen) parameter besides weight and bias, patterns with inline global flags / capturing groups / anchors')
 TRUSTED = [
     'Lean 4.33 kernel; axioms audited ⊆ {propext, Classical.choice, Quot.sound}',
     'hand-written model KV.Reg tied to kfac/layers/register.py and kfac/gpt_neox/preconditioner.py:register_modules',
@@ -39,6 +39,17 @@ def classes():
             super().__init__(*a, **k)
             self.act = torch.nn.ReLU()
 
+    class ScaledLinear(torch.nn.Linear):
+        """a Linear leaf with a parameter besides weight and bias (fixed scale / gate, weight-norm's g)"""
+        def __init__(self, *a, **k):
+            super().__init__(*a, **k)
+            self.scale = torch.nn.Parameter(torch.ones(1))
+
+    class GatedConv2d(torch.nn.Conv2d):
+        def __init__(self, *a, **k):
+            super().__init__(*a, **k)
+            self.gate = torch.nn.Parameter(torch.ones(1))
+
     class ColumnParallelLinear(torch.nn.Linear):
         pass
 
@@ -53,7 +64,7 @@ def classes():
             super().__init__()
             self.weight = torch.nn.Parameter(torch.zeros(2, 2))
 
-    return dict(MyLinear=MyLinear, Conv2dSub=Conv2dSub, LinWithChild=LinWithChild,
+    return dict(ScaledLinear=ScaledLinear, GatedConv2d=GatedConv2d, MyLinear=MyLinear, Conv2dSub=Conv2dSub, LinWithChild=LinWithChild,
                 ColumnParallelLinear=ColumnParallelLinear, RowParallelLinear=RowParallelLinear,
                 Block=Block, linear=linear)
 
@@ -66,7 +77,7 @@ def gen_tree(rng, C, depth=0, pool=None):
     if depth >= 3 or (depth > 0 and r < 0.55):
         kind = rng.choice(['Linear', 'Linear', 'Conv2d', 'MyLinear', 'Conv2dSub', 'ReLU', 'BatchNorm2d',
                            'LayerNorm', 'Embedding', 'Column', 'Row', 'LinWithChild', 'Identity', 'fake',
-                           'Conv1d', 'shared'])
+                           'Conv1d', 'shared', 'ScaledLinear', 'GatedConv2d'])
         if kind == 'shared' and pool:
             return rng.choice(pool)
         bias = rng.random() < 0.7
@@ -78,10 +89,14 @@ def gen_tree(rng, C, depth=0, pool=None):
             'Row': lambda: C['RowParallelLinear'](2, 2, bias=bias), 'LinWithChild': lambda: C['LinWithChild'](2, 2),
             'Identity': nn.Identity, 'fake': C['linear'], 'Conv1d': lambda: nn.Conv1d(1, 1, 1),
             'shared': lambda: nn.Linear(2, 2),
+            'ScaledLinear': lambda: C['ScaledLinear'](2, 2, bias=bias), 'GatedConv2d': lambda: C['GatedConv2d'](1, 1, 1, bias=bias),
         }[kind]()
         fr = rng.random()
         ps = list(m.parameters(recurse=False))
-        if ps and fr < 0.2:
+        if kind in ('ScaledLinear', 'GatedConv2d') and fr < 0.6:
+            # only the extra parameter is frozen: weight and bias train, the module as a whole is partially frozen
+            getattr(m, 'scale' if kind == 'ScaledLinear' else 'gate').requires_grad_(False)
+        elif ps and fr < 0.2:
             for p in ps:
                 p.requires_grad_(False)
         elif ps and fr < 0.35:
